@@ -454,9 +454,12 @@ ADDED5 = {
            "a request is served or stays queued, never dropped; bounded: 0..2 queued requests).",
     "C06": "Review round: C11's late-player set re-checked (the turn of a player who is still being added; defect 6ae4dc1 "
            "repaired).",
-    "C07": "Review round: _mode_stopped_callback M12 (no delay of the mode left pending; defect 0fe3d76 repaired).",
+    "C03": "Review round: _process_active_timed_switches H3 (a due handler that registers another hold-time handler: one "
+           "live wake-up, the recorded one; defect 24a70ff repaired; bounded).",
+    "C07": "Review round: _mode_stopped_callback M12 / M13 (no delay and no switch handler of the mode left; defects "
+           "0fe3d76, c6d9b62 repaired).",
     "C09": "Review round: Light.get_color_below GB1 (no longer assumed; defect 602acfe repaired; bounded: 3 layers, keys "
-           "modelled as integers).",
+           "modelled as integers), _add_to_stack AS1 / AS2 (defect a0c27b8 repaired).",
     "C11": "Review round: ModeController._player_turn_start / _player_added / _ball_starting (PT0 / PT1; defect 6ae4dc1), "
            "VP1 rewritten (defect 3aeb834), logic-block removal re-checked natively (defect 1c72f9d).",
     "C13": "Review round: Timer.pause PA1 (defect 7360f73), Timer._setup_control_events TC1 (defect e6d20e2; bounded: 2 "
